@@ -242,7 +242,7 @@ def quota_dec(ctx):
     # slot and returns normally (not through a failed write) the PUBLISH write follows
     from pathutil import exit_kind
     wbs = {e.bb for e in effs if e.kind == "TxWrite" and e.bb in on_publish}
-    fol, nfol = ap.followed_by("PUBLISH", dbb, wbs, only_ok=lambda p_: exit_kind(hm, p_) == "ok")
+    fol, nfol = ap.followed_by("PUBLISH", dbb, wbs, only_ok=lambda p_: exit_kind(hm, p_) == "ok", same_block=True)
     out.append(Inst("QUOTA-DEC", "dec-followed-by-write", fol, site,
                     "on %d normal PUBLISH path(s) through the decrement the PUBLISH write %s" % (nfol, "always follows" if fol else "does NOT always follow (a refusal after the decrement leaks the slot)"),
                     "a slot is consumed only by a PUBLISH that goes on the wire"))
@@ -328,6 +328,12 @@ def quota_inc(ctx):
         if entry is not None:
             reg = arm_region(hp, entry)
             gblocks = [d for d, _, _ in g] or [bb]
+            # what can run for this kind of packet (code behind the join of the arms that other kinds use -- the
+            # acknowledgement writes of a staged handler -- is not part of this arm)
+            vs_ = [v_ for v_ in str(arm).split("|") if v_ in variant_specs(ctx, hp, RXPACKET, sw)]
+            if vs_:
+                can_run = set().union(*[variant_specs(ctx, hp, RXPACKET, sw)[v_].reach for v_ in vs_])
+                reg = {b for b in reg if b in can_run}
             errs = [b for b in reg if is_err_block(hp, b) and not any(hp.dominates(gb, b) for gb in gblocks)]
             out.append(Inst("QUOTA-INC", "arm=%s:before-exits" % arm, not errs, site,
                             "error exits of the arm not preceded by the release: %s" % ([hp.site(b) for b in errs] or "none"),
@@ -573,6 +579,8 @@ def maxsize_source(ctx):
         if not f["path"].startswith("client::"):
             continue
         body = ctx.world.body(f["path"])
+        if body.path.endswith("::handle_connack"):
+            body = ctx.flat(body)       # a value object filled from the CONNACK first (`BrokerLimits::from(connack)`) is looked at in place
         for i in sorted(body.reach):
             for st in body.blocks[i]["stmts"]:
                 if st["k"] == "assign" and place_fields(st["lhs"]) and place_fields(st["lhs"])[-1] == (CONNECTION, "remote_max_packet_size"):
